@@ -152,6 +152,8 @@ def run(ck):
         ck.guard("C01-R7", r7_mirror, ck, F)
         ck.guard("C01-R8", r8_pending_block, ck, F)
         ck.guard("C01-R9", r9_fill_lengths, ck, F)
+        from .c14 import entry_frame_agreement
+        ck.guard("C01-R11", entry_frame_agreement, ck, F, "C01-R11")
         # what is written reaches the sink whole and in order, and offsets are the sink's byte count
         from .c11 import r2_count_accepted, r1_write_all
         ck.guard("C01-R10", r2_count_accepted, ck, F, "C01-R10")
